@@ -10,6 +10,12 @@ value other than GT/PS/HP of target samples on selected chromosomes, allele mult
 (unless --distrust-genotypes), phase marks only on supported heterozygous calls that the run phased, and the
 header definitions.  Correspondence: parsed output records == Lean `c04.write` (repaired writer) applied to the
 parsed input records with the traced super-reads/components; output header == Lean `c04.header`.
+
+Since round E04 (Model/C04File.lean) also at file level: `c04.file` runs the model of reader (`groupby`, row selection), augmenter
+(look-ahead streaming) and chromosome loop over the TEXT of htslib's copy of the input: tables, every output line's FORMAT and
+sample columns byte for byte, the reader's rows against the real VcfReader, header (incl. Number/Type of FORMATs), refusals
+(VcfError, unknown sample) both ways, sample selection; plus in-process stream cases (arbitrary `write` call sequences on the
+real PhasedVcfWriter) and reader cases (record lists with every skipped kind, unsorted positions, odd ploidies).
 """
 import gzip, json, os, random, re, shutil
 
@@ -25,16 +31,21 @@ RULE = ("one `whatshap phase` CLI run over a generated multi-sample, multi-chrom
         "(Integer/Float/String/Flag, Number 1/A/R/G/.), ID/QUAL/FILTER values, missing/partial genotypes, records without "
         "GT / without ALT, multi-ALT, symbolic ALT, duplicate positions, pre-existing PS/HP phase, optional missing contig "
         "lines and mis-declared predefined FORMATs; random --sample/--chromosome selection, both tags, optional --only-snvs, "
-        "--distrust-genotypes. Non-trivial: at least one call was phased and the file has at least one record the writer must "
+        "--distrust-genotypes, chromosome names coming back later in the file, >=16-ALT records, undeclared predefined INFOs, refused "
+        "inputs, output to file/stdout/.gz/over an existing file; plus in-process cases without BAM: `write` call sequences on "
+        "the real PhasedVcfWriter (non-trivial: a chromosome comes back) and record lists for the real VcfReader (non-trivial: "
+        "some record is no table row). CLI runs non-trivial: at least one call was phased and the file has at least one record the writer must "
         "skip or one non-target sample/chromosome; distinct = distinct (generator seed, options)")
 MANIFEST = dict(
     text="Lean 4 theorems about a record-level model of PhasedVcfWriter.write and of the header pipeline "
          "(untouched_outside_targets, only_phase_fields_change, alleles_preserved, phased_only_if_het_supported, "
-         "header_superset); tied to the working tree by real CLI runs: the parsed output must equal the model applied to the "
+         "header_superset) and of the file level around it (reader row selection, groupby, augmenter look-ahead, chromosome loop, "
+         "header scan, column text: stream_lockstep, file_untouched_outside_selection, writer_reader_agree, "
+         "alleles_preserved_from_table, header_covers_body, text_nothing_else); tied to the working tree by real CLI runs: the parsed output must equal the model applied to the "
          "parsed input with the traced super-reads/components, and an independent line-by-line oracle compares the output "
          "with htslib's own unmodified re-serialisation of the input",
     design_ref="DESIGN.md §5 C04",
-    note="trusted: Lean kernel; hand-written model (differential: quick 30 CLI runs, thorough 300); htslib parsing and "
+    note="trusted: Lean kernel; hand-written model (differential: quick 30 CLI runs + 300 in-process cases, thorough 300 + 3000); htslib parsing and "
          "serialisation (the oracle's baseline is a pysam copy of the input). phased_only_if_het_supported needs the "
          "tag-independent removal of fixes/F4.patch; on the unpatched repo --tag HP leaves stale phase marks of the input "
          "(reported, key stale-mark) and can write a NUL byte as HP value (F21, key output-unparsable)",
